@@ -300,4 +300,135 @@ theorem round53_relerr (x : Dy) (hn : -1021 ≤ bexp x) :
   have := roundTo_relerr 53 (-1074) x (by push_cast; omega)
   exact this
 
+/-! ## rounding never crosses a point of its own grid -/
+
+theorem roundTo_no_cross_le (p : ℕ) (emin : ℤ) (x : Dy) (hm : x.m ≠ 0) (g : ℤ)
+    (h : x.val ≤ g * (2:ℚ) ^ tExp p emin x) : (roundTo p emin x).val ≤ g * (2:ℚ) ^ tExp p emin x := by
+  obtain ⟨k, hk, h2, _⟩ := roundTo_spec p emin x hm
+  have htp := two_zpow_pos (tExp p emin x)
+  by_contra hc
+  rw [hk] at hc h2
+  have hkg : g < k := by
+    have := lt_of_mul_lt_mul_right (not_le.mp hc) htp.le
+    exact_mod_cast this
+  have hkg' : (g:ℚ) + 1 ≤ k := by exact_mod_cast hkg
+  have h3 : (g:ℚ) * (2:ℚ) ^ tExp p emin x + (2:ℚ) ^ tExp p emin x ≤ k * (2:ℚ) ^ tExp p emin x := by nlinarith
+  have h4 := le_abs_self ((k:ℚ) * (2:ℚ) ^ tExp p emin x - x.val)
+  linarith
+
+theorem roundTo_no_cross_ge (p : ℕ) (emin : ℤ) (x : Dy) (hm : x.m ≠ 0) (g : ℤ)
+    (h : g * (2:ℚ) ^ tExp p emin x ≤ x.val) : g * (2:ℚ) ^ tExp p emin x ≤ (roundTo p emin x).val := by
+  obtain ⟨k, hk, h2, _⟩ := roundTo_spec p emin x hm
+  have htp := two_zpow_pos (tExp p emin x)
+  by_contra hc
+  rw [hk] at hc h2
+  have hkg : k < g := by
+    have := lt_of_mul_lt_mul_right (not_le.mp hc) htp.le
+    exact_mod_cast this
+  have hkg' : (k:ℚ) + 1 ≤ g := by exact_mod_cast hkg
+  have h3 : (k:ℚ) * (2:ℚ) ^ tExp p emin x + (2:ℚ) ^ tExp p emin x ≤ g * (2:ℚ) ^ tExp p emin x := by nlinarith
+  have h4 := neg_abs_le ((k:ℚ) * (2:ℚ) ^ tExp p emin x - x.val)
+  linarith
+
+/-- a point of the (coarser or equal) grid `2^s ℤ`, `s ≥ t`, is not crossed either -/
+theorem roundTo_no_cross_le' (p : ℕ) (emin : ℤ) (x : Dy) (hm : x.m ≠ 0) (g s : ℤ) (hs : tExp p emin x ≤ s)
+    (h : x.val ≤ g * (2:ℚ) ^ s) : (roundTo p emin x).val ≤ g * (2:ℚ) ^ s := by
+  have : (g:ℚ) * (2:ℚ) ^ s = ((g * 2 ^ (s - tExp p emin x).toNat : ℤ) : ℚ) * (2:ℚ) ^ tExp p emin x := by
+    push_cast
+    rw [mul_assoc, ← zpow_natCast, ← two_zpow_split]; congr 2
+    rw [Int.toNat_of_nonneg (by omega)]; ring
+  rw [this] at h ⊢
+  exact roundTo_no_cross_le p emin x hm _ h
+
+theorem roundTo_no_cross_ge' (p : ℕ) (emin : ℤ) (x : Dy) (hm : x.m ≠ 0) (g s : ℤ) (hs : tExp p emin x ≤ s)
+    (h : g * (2:ℚ) ^ s ≤ x.val) : g * (2:ℚ) ^ s ≤ (roundTo p emin x).val := by
+  have : (g:ℚ) * (2:ℚ) ^ s = ((g * 2 ^ (s - tExp p emin x).toNat : ℤ) : ℚ) * (2:ℚ) ^ tExp p emin x := by
+    push_cast
+    rw [mul_assoc, ← zpow_natCast, ← two_zpow_split]; congr 2
+    rw [Int.toNat_of_nonneg (by omega)]; ring
+  rw [this] at h ⊢
+  exact roundTo_no_cross_ge p emin x hm _ h
+
+/-- a value on the grid `2^s ℤ` with `s ≥ t` is a fixed point (in value) -/
+theorem roundTo_val_of_grid (p : ℕ) (emin : ℤ) (x : Dy) (g s : ℤ) (hs : x.m ≠ 0 → tExp p emin x ≤ s)
+    (h : x.val = g * (2:ℚ) ^ s) : (roundTo p emin x).val = x.val := by
+  by_cases hm : x.m = 0
+  · rw [roundTo_val_zero p emin x hm, val_of_m_zero x hm]
+  · apply le_antisymm
+    · rw [h]; exact roundTo_no_cross_le' p emin x hm g s (hs hm) h.le
+    · rw [h]; exact roundTo_no_cross_ge' p emin x hm g s (hs hm) h.ge
+
+/-- **representable values are fixed**: `x = g·2^s` with `|g| ≤ 2^p` and `s ≥ emin` rounds to itself -/
+theorem roundTo_val_of_fits (p : ℕ) (hp : 1 ≤ p) (emin : ℤ) (x : Dy) (g s : ℤ) (hg : |g| ≤ 2 ^ p) (hs : emin ≤ s)
+    (h : x.val = g * (2:ℚ) ^ s) : (roundTo p emin x).val = x.val := by
+  have hsp := two_zpow_pos s
+  have habs : |x.val| = (|g| : ℤ) * (2:ℚ) ^ s := by rw [h, abs_mul, abs_of_pos hsp]; push_cast; rfl
+  by_cases hlt : |g| < 2 ^ p
+  · apply roundTo_val_of_grid p emin x g s _ h
+    intro hm
+    have : |x.val| < (2:ℚ) ^ ((p:ℤ) + s) := by
+      rw [habs, two_zpow_split, zpow_natCast]
+      have : ((|g| : ℤ) : ℚ) < (2:ℚ) ^ p := by exact_mod_cast hlt
+      exact mul_lt_mul_of_pos_right this hsp
+    have := bexp_le_of_lt x hm _ this
+    rw [tExp_eq]; omega
+  · have hge : |g| = 2 ^ p := by omega
+    -- `x = ±2^(p−1) · 2^(s+1)`
+    have hg2 : g = 2 ^ p ∨ g = -(2 ^ p) := by
+      rcases abs_cases g with ⟨e1, _⟩ | ⟨e1, _⟩ <;> [left; right] <;> omega
+    have hpp : (2:ℤ) ^ p = 2 ^ (p - 1) * 2 := by
+      conv_lhs => rw [show p = (p - 1) + 1 by omega]
+      rw [pow_succ]
+    have hs1 : (2:ℚ) ^ (s + 1) = (2:ℚ) ^ s * 2 := by rw [two_zpow_split]; norm_num
+    have hx' : x.val = ((if g = 2 ^ p then 2 ^ (p - 1) else -(2 ^ (p - 1)) : ℤ) : ℚ) * (2:ℚ) ^ (s + 1) := by
+      rw [h, hs1]
+      rcases hg2 with e | e
+      · rw [if_pos e, e, hpp]; push_cast; ring
+      · have : ¬ g = 2 ^ p := by
+          have : (0:ℤ) < 2 ^ p := by positivity
+          omega
+        rw [if_neg this, e, hpp]; push_cast; ring
+    apply roundTo_val_of_grid p emin x _ (s + 1) _ hx'
+    intro hm
+    have : |x.val| < (2:ℚ) ^ ((p:ℤ) + s + 1) := by
+      rw [habs, hge, two_zpow_split, two_zpow_split, zpow_natCast]
+      push_cast
+      have : (0:ℚ) < (2:ℚ) ^ p * (2:ℚ) ^ s := by positivity
+      linarith
+    have := bexp_le_of_lt x hm _ this
+    rw [tExp_eq]; omega
+
+/-- the result of `roundTo` is `k·2^t` with `|k| ≤ 2^p`, `t ≥ emin` (it fits) -/
+theorem roundTo_fits (p : ℕ) (emin : ℤ) (x : Dy) (hm : x.m ≠ 0) :
+    ∃ k : ℤ, (roundTo p emin x).val = k * (2:ℚ) ^ tExp p emin x ∧ |k| ≤ 2 ^ p ∧ emin ≤ tExp p emin x := by
+  set t := tExp p emin x with ht
+  have htp := two_zpow_pos t
+  have htE : bexp x ≤ t + p := by rw [ht, tExp_eq]; omega
+  -- G = 2^p · 2^t ≥ 2^bexp > |x|
+  have hG : |x.val| ≤ ((2 ^ p : ℤ) : ℚ) * (2:ℚ) ^ t := by
+    have h1 := (val_binade x hm).2
+    have h2 : (2:ℚ) ^ bexp x ≤ (2:ℚ) ^ (t + p) := two_zpow_le htE
+    rw [two_zpow_split, zpow_natCast] at h2
+    push_cast; linarith
+  have hG1 := roundTo_no_cross_le p emin x hm (2 ^ p) (le_trans (le_abs_self _) hG)
+  have hG2 := roundTo_no_cross_ge p emin x hm (-(2 ^ p)) (by
+    have := neg_abs_le x.val
+    push_cast at hG ⊢; linarith)
+  obtain ⟨k, hk, _⟩ := roundTo_spec p emin x hm
+  refine ⟨k, hk, ?_, by rw [ht, tExp_eq]; omega⟩
+  rw [hk] at hG1 hG2
+  have h1 : (k:ℚ) ≤ ((2 ^ p : ℤ) : ℚ) := le_of_mul_le_mul_right hG1 htp
+  have h2 : ((-(2 ^ p) : ℤ) : ℚ) ≤ (k:ℚ) := le_of_mul_le_mul_right hG2 htp
+  have h1' : k ≤ 2 ^ p := by exact_mod_cast h1
+  have h2' : -(2 ^ p) ≤ k := by exact_mod_cast h2
+  exact abs_le.mpr ⟨h2', h1'⟩
+
+/-- (a) **idempotence** (in value; the representation may be renormalised when the mantissa rounds up to `2^p`) -/
+theorem roundTo_idem (p : ℕ) (hp : 1 ≤ p) (emin : ℤ) (x : Dy) :
+    (roundTo p emin (roundTo p emin x)).val = (roundTo p emin x).val := by
+  by_cases hm : x.m = 0
+  · rw [roundTo_zero p emin x hm, roundTo_zero p emin ⟨0, 0⟩ rfl]
+  · obtain ⟨k, hk, hk2, ht⟩ := roundTo_fits p emin x hm
+    exact roundTo_val_of_fits p hp emin _ k _ hk2 ht hk
+
 end GeoVerif.Dy
